@@ -95,6 +95,16 @@ CHECKS = {
    "Per sequence a live pike process receives 2-6 random valid updates (29 mutation kinds incl. optional fields set and unset) through the real admin PUT /config or an in-place write of the file, each completion observed via the update.done hook, while a client keeps requesting an unchanged server; a second process is started on the final configuration; a probe suite derived from that configuration is run against both and compared field by field (status, label, encoding, encoded and decoded bytes, headers, which origin saw which path, query and added headers), plus cache binding between servers, the retained hit of a key cached before the updates, and that a removed server stops listening. Two directed sequences (bestCompression override and removal; server removed and re-added at once) run every time.",
    "restart-only settings are never changed; compressors are deterministic so equal levels give equal bytes",
    "DESIGN.md 6/C16"),
+ "C19": ("inproc", "fault_enumeration",
+   "ground-truth monitor: the driver's up/down vector vs per-origin request counters, with settling observed through health-check activity at the origins",
+   "14 (thorough 60) upstream groups in one process covering every primary/backup mix of 1-4 servers, five policies, ping-path and port health checks; origins are really stopped and restarted on the same port in phases (all down, primaries down, first down, random, recovery). After each change the driver waits for two health-check rounds observed after the change on a live server (11.5 s if none), then 12 sequential requests per group must go to healthy primaries, to healthy backups only when no primary is healthy, be balanced within 1 under round-robin, or fail with a 5xx within 2 s when nothing is healthy; traffic must resume after recovery.",
+   "the upstream library's 5 s ticker has no clock seam (wall-clock bound); behaviour inside the unsettled window is not judged",
+   "DESIGN.md 6/C19"),
+ "C20": ("inproc", "exploration",
+   "Go race detector over a mixed stress workload (logs parsed and de-duplicated by outermost pike entry-point pair) + per-response integrity oracle + crash monitor; in-process child and real binary",
+   "A race-instrumented child process runs pike in-process with two servers/caches, 1 s lifetimes and hit-for-pass on the real clock, 64 clients (hot, cold and uncacheable keys, GET/HEAD/POST, six Accept-Encoding values, matching and non-matching validators), a purger through the admin API and a reloader alternating two configurations through the calls main.update uses, with hook callbacks removed; every answer must be well-formed and equal to what the upstream produces for its key (304 only for matching validators). A directed schedule releases a woken waiter and the next request without ordering them. The real binary runs under 16 clients and a storm of admin config saves. Every race report with a pike frame and every crash is a violation.",
+   "the race detector only sees produced interleavings; a request landing between two steps of one reload may get pike's own 503 not-found (counted, not judged here)",
+   "DESIGN.md 6/C20"),
 }
 ALL = ["C%02d" % i for i in range(1, 21)]
 NOT_BUILT_REASON = "no check is registered for this property yet (framework under construction; see DESIGN.md Appendix B build order)"
